@@ -1,5 +1,6 @@
 import MtailVerif.Proofs.Prom
 import MtailVerif.Props.C21
+import MtailVerif.Proofs.Skeletons
 /-! # C13 — Prometheus exposition reflects the store exactly -/
 namespace MtailVerif.C13
 open MtailVerif MtailVerif.Prom
@@ -70,5 +71,12 @@ example : (collect ⟨false, false⟩ ([], [])
     [⟨[97, 45, 98], [112], .gauge, [[107]], [⟨[[255]], ⟨1, 0, none⟩⟩, ⟨[[120]], ⟨2, 0, none⟩⟩]⟩]).map
       (fun s => (s.name, s.labels, s.value)) =
     [([97, 95, 98], [([112, 114, 111, 103], [112]), ([107], [120])], 2)] := by decide
+
+/-! ### regenerated control skeletons (written by lib/wire_skeletons.py) -/
+/-- Obligations over regenerated facts: the functions this property's model stands for have the
+    control skeleton the model was written against (`Proofs/Skeletons.lean`, one `rfl` per function
+    or clause; DESIGN.md §11.6a) -/
+theorem export_skeletons : Skeletons.ExportShape := Skeletons.export_shape
+theorem datum_skeletons : Skeletons.DatumShape := Skeletons.datum_shape
 
 end MtailVerif.C13
